@@ -246,13 +246,17 @@ class Exec:
 
     def ev_IfExp(self, e, st):
         c = truthy(self.ev(e.test, st))
+        cs = z3.simplify(c)
+        if z3.is_true(cs): return self.ev(e.body, st)
+        if z3.is_false(cs): return self.ev(e.orelse, st)
         s1 = st.fork(); s1.assume(c); a = self.ev(e.body, s1)
-        s2 = st.fork(); s2.assume(z3.Not(c)); b = self.ev(e.orelse, s2)
-        n0 = len(st.pc)
-        for s, g in ((s1, c), (s2, z3.Not(c))):
-            self.merge_heap(s, st)
-            extra = s.pc[n0 + 1:]
-            if extra: st.assume(z3.Implies(g, z3.And(extra)))
+        s2 = st.fork()
+        if 'alloc' in s1.ghost: s2.ghost['alloc'] = s1.ghost['alloc']      # objects created in the two arms are distinct
+        s2.assume(z3.Not(c)); b = self.ev(e.orelse, s2)
+        m = State.merge(c, s1, s2)
+        for k in list(st.env):
+            if k not in m.env: m.env[k] = st.env[k]
+        st.env = m.env; st.heap = m.heap; st.pc[:] = m.pc; st.ghost = m.ghost
         return ite(c, a, b)
 
     def ev_Compare(self, e, st):
@@ -318,6 +322,12 @@ class Exec:
             hi = self.ev(e.slice.upper, st) if e.slice.upper else None
             return lib.slice_(base, lo, hi, st)
         idx = self.ev(e.slice, st)
+        if isinstance(base, VRef) and isinstance(idx, VStr) and z3.is_string_value(idx.term):
+            try:
+                field_type(base.cls, 'item:' + idx.term.as_string())
+                return heap_get(st, base, 'item:' + idx.term.as_string())      # registry object: constant key = a field
+            except ToolLimit:
+                pass
         if isinstance(base, VRef):
             m = self.find_method(base.cls, '__getitem__')
             if m is None: raise ToolLimit('subscript on %s (line %s)' % (base.cls, getattr(e, 'lineno', '?')))
@@ -395,6 +405,10 @@ class Exec:
                 b = self.sub(st, lambda s2: truthy(self.ev(e.args[1], s2)), guard=a)
                 return VBool(z3.Implies(a, b))
             if n == 'truthy': return VBool(truthy(self.ev(e.args[0], st)))
+            if n == 'cast':
+                v = self.ev(e.args[1], st)
+                if isinstance(v, VOpt): v = v.val
+                return VRef(v.term, e.args[0].value)
             if n == 'ite':
                 return ite(truthy(self.ev(e.args[0], st)), self.ev(e.args[1], st), self.ev(e.args[2], st))
         f = self.ev(e.func, st)
@@ -442,7 +456,12 @@ class Exec:
             q = self.find_method(f.name, '__init__')
             if q:
                 obj = new_object(st, f.name)
+                st.assume(CLS_NAME(obj.term) == z3.StringVal(f.name))
                 self.call(CONTRACTS[q], [obj] + args, kwargs, st, e, awaited)
+                return obj
+            if f.name in CLASSES and not CLASSES[f.name]['fields'] and not args:
+                obj = new_object(st, f.name)
+                st.assume(CLS_NAME(obj.term) == z3.StringVal(f.name))
                 return obj
         raise ToolLimit('call kind %s %s (line %s)' % (f.kind, f.name, e.lineno))
 
@@ -476,7 +495,17 @@ class Exec:
             if not isinstance(seq, VList): raise ToolLimit('quantifier over %s' % type(seq).__name__)
             env2[name] = wrap(z3.Select(seq.arr, i), seq.elem)
             guard = z3.And(0 <= i, i < seq.n)
-        if self.ctx.unroll and len(e.args) == 3 or self.ctx.unroll and not len(e.args) == 3:
+        lo_c = z3.simplify(lo if len(e.args) == 3 else z3.IntVal(0)); hi_c = z3.simplify(hi if len(e.args) == 3 else seq.n)
+        if z3.is_int_value(lo_c) and z3.is_int_value(hi_c) and hi_c.as_long() - lo_c.as_long() <= 16:
+            # concrete, small range: a finite conjunction / disjunction instead of a quantifier
+            insts = []
+            for j in range(lo_c.as_long(), hi_c.as_long()):
+                envj = dict(st.env)
+                envj[name] = VInt(j) if len(e.args) == 3 else wrap(z3.Select(seq.arr, j), seq.elem)
+                insts.append(self.sub(st, lambda s2: truthy(self.ev(lam.body, s2)), env=envj))
+            if which == 'forall': return VBool(z3.And(insts) if insts else z3.BoolVal(True))
+            return VBool(z3.Or(insts) if insts else z3.BoolVal(False))
+        if self.ctx.unroll:
             # small-scope expansion: the range is assumed to lie within [0, K]; the quantifier becomes a finite conjunction
             K = self.ctx.unroll + 1
             if len(e.args) == 3: lo_t, hi_t = lo, hi
@@ -540,6 +569,7 @@ class Exec:
             if not isinstance(v, VOpt): v = to_opt(self.coerce(v, ty.elem, what) if not isinstance(v, VNone) else v, ty.elem)
             return v
         if isinstance(v, lib.VEmpty): return lib.empty_of(ty)
+        if isinstance(ty, TList) and isinstance(v, VTuple) and v.items: return lib.list_of(v.items, None)
         if isinstance(ty, TInt) and isinstance(v, VBool): return VInt(z3.If(v.term, 1, 0))
         if isinstance(ty, TBool) and not isinstance(v, (VBool, VOpt)): return VBool(truthy(v))
         if isinstance(ty, TAny) and not isinstance(v, VAny): return VAny(z3.FreshConst(AnySort, 'any'))
@@ -769,9 +799,18 @@ class Exec:
         outs = []
         if not z3.is_false(c):
             s1 = st.fork(); s1.assume(c, 'L%d: if (%s) true' % (s.lineno, src(s.test))); outs += self.block(s.body, s1)
+        o1 = list(outs); o2 = []
         if not z3.is_true(c):
-            s2 = st.fork(); s2.assume(z3.Not(c), 'L%d: if (%s) false' % (s.lineno, src(s.test))); outs += self.block(s.orelse, s2)
-        return outs
+            s2 = st.fork(); s2.assume(z3.Not(c), 'L%d: if (%s) false' % (s.lineno, src(s.test))); o2 = self.block(s.orelse, s2)
+        if self.ctx.c.merge_ifs:
+            n1 = [o for o in o1 if o.kind == 'normal']; n2 = [o for o in o2 if o.kind == 'normal']
+            if len(n1) == 1 and len(n2) == 1:
+                try:
+                    m = State.merge(c, n1[0].state, n2[0].state)
+                    return [o for o in o1 + o2 if o.kind != 'normal'] + [Outcome('normal', m)]
+                except ToolLimit:
+                    pass
+        return o1 + o2
 
     def st_Assert(self, s, st):
         c = truthy(self.ev(s.test, st))
@@ -1131,7 +1170,7 @@ def frame_check(ctx, ex, c, o, pi, node):
 
 
 # ---------------------------------------------------------------------- top level
-def verify(contract, unroll=0):
+def verify(contract, unroll=0, shard=(0, 1)):
     """generate obligations for one function under contract"""
     c = contract
     node, seg, lines = load_function(c.file, c.func)
@@ -1167,7 +1206,12 @@ def verify(contract, unroll=0):
         except ToolLimit as e:
             ctx.warnings.append('observe %r: %s' % (text, e))
     outs = ex.block(node.body, st)
+    if shard[0] != 0: ctx.obligations = []        # obligations raised along the way belong to shard 0
     for pi, o in enumerate(outs):
+        if pi % shard[1] != shard[0]: continue
+        n_before = len(ctx.obligations)
+        ctx.group_marks = getattr(ctx, 'group_marks', [])
+        ctx.group_marks.append((pi, n_before))
         if o.kind in ('normal', 'return'):
             res = o.value if o.kind == 'return' and o.value is not None else VNone()
             if c.ret is not None: res = ex.coerce(res, c.ret, 'return value of %s' % c.name)
@@ -1198,6 +1242,10 @@ def verify(contract, unroll=0):
                     ctx.oblige(o.state, 'exit-inv%s@path%d' % (inv.label, pi), ex.spec_eval(inv.text, o.state, entry_env), node, props=inv.props, kind='exit-inv')
         else:
             raise ToolLimit('stray %s' % o.kind)
+    marks = ctx.__dict__.get('group_marks', [])
+    for k, (pi, start) in enumerate(marks):
+        end = marks[k + 1][1] if k + 1 < len(marks) else len(ctx.obligations)
+        for ob in ctx.obligations[start:end]: ob.group = pi
     ctx.npaths = len(outs)
-    ctx.path_states = [(pi, o.kind, o.exc, o.state) for pi, o in enumerate(outs)]
+    ctx.path_states = [(pi, o.kind, o.exc, o.state) for pi, o in enumerate(outs) if pi % shard[1] == shard[0]]
     return ctx
